@@ -43,6 +43,9 @@ type ProcPool struct {
 	BadAmmo bool `json:"bad_ammo"`
 	// PanicAfter > 0: a gun of this pool panics at its PanicAfter-th shot
 	PanicAfter int `json:"panic_after"`
+	// Stdout: phout is configured without `destination`: the samples go to the standard output of the process (at most
+	// one pool of a case; the log goes to standard error)
+	Stdout bool `json:"phout_to_stdout,omitempty"`
 }
 
 type ProcCase struct {
@@ -88,6 +91,9 @@ func genProcCase(t *rapid.T) ProcCase {
 		}
 		c.Pools = append(c.Pools, p)
 	}
+	if rapid.IntRange(0, 3).Draw(t, "stdoutPhout") == 0 {
+		c.Pools[rapid.IntRange(0, n-1).Draw(t, "stdoutPool")].Stdout = true
+	}
 	return c
 }
 
@@ -108,6 +114,21 @@ func checkProcEnd(c ProcCase, o *vf.Obs) error {
 	}
 	snap := filepath.Join(dir, "snapshot")
 	logF := filepath.Join(dir, "out.log")
+	nStdout := 0
+	for _, p := range c.Pools {
+		if p.Stdout {
+			nStdout++
+		}
+	}
+	if nStdout > 1 {
+		return fmt.Errorf("bad case: more than one pool writes phout to the standard output")
+	}
+	dest := func(i int, p ProcPool) string {
+		if p.Stdout {
+			return "" // no destination: standard output, which the harness points at the pool's phout file
+		}
+		return fmt.Sprintf("      destination: %q\n", f("phout", i))
+	}
 	var cfg strings.Builder
 	cfg.WriteString("pools:\n")
 	for i, p := range c.Pools {
@@ -142,14 +163,16 @@ func checkProcEnd(c ProcCase, o *vf.Obs) error {
     ammo: %s
     result:
       type: phout
-      destination: %q
-      id: %v
+%s      id: %v
     rps: %s
     startup: {type: once, times: %d}
     discard_overflow: false
-`, i, f("pre", i), f("post", i), p.ShotUs, p.PanicAfter, strings.Join(posts, ", "), snap, ammo, f("phout", i), p.IDs, rps, p.Instances)
+`, i, f("pre", i), f("post", i), p.ShotUs, p.PanicAfter, strings.Join(posts, ", "), snap, ammo, dest(i, p), p.IDs, rps, p.Instances)
 	}
 	cfg.WriteString("log:\n  level: error\n")
+	if nStdout > 0 {
+		cfg.WriteString("  file: stderr\n") // the log's default file is the standard output as well
+	}
 	cfgF := filepath.Join(dir, "load.yaml")
 	if err := os.WriteFile(cfgF, []byte(cfg.String()), 0o644); err != nil {
 		return fmt.Errorf("harness: %v", err)
@@ -162,6 +185,16 @@ func checkProcEnd(c ProcCase, o *vf.Obs) error {
 	cmd := exec.Command(bin, cfgF)
 	cmd.Dir = dir
 	cmd.Stdout, cmd.Stderr = out, out
+	for i, p := range c.Pools {
+		if p.Stdout {
+			so, err := os.Create(f("phout", i))
+			if err != nil {
+				return fmt.Errorf("harness: %v", err)
+			}
+			defer so.Close()
+			cmd.Stdout = so
+		}
+	}
 	if c.Procs > 0 {
 		cmd.Env = append(os.Environ(), fmt.Sprintf("GOMAXPROCS=%d", c.Procs))
 	}
@@ -300,6 +333,9 @@ func checkProcEnd(c ProcCase, o *vf.Obs) error {
 		ammoEnd = ammoEnd || (p.AmmoLines > 0 && !p.BadAmmo)
 	}
 	o.ClassIf(c.End == "none" && ammoEnd, "ended_by_ammo")
+	o.ClassIf(nStdout > 0, "phout_to_stdout")
+	o.ClassIf(nStdout > 0 && c.End == "none", "phout_to_stdout_run_ended_by_itself")
+	o.ClassIf(nStdout > 0 && c.End != "none", "phout_to_stdout_run_failed")
 	if total >= 100 && (len(c.Pools) > 1 || c.End != "none") {
 		o.NonTrivial()
 	}
